@@ -29,6 +29,8 @@ Hypothesis H_block : forall items, Forall Pi items -> Pe (EBlock items).
 Hypothesis H_while : forall c b, Pe c -> Pe b -> Pe (EWhile c b).
 Hypothesis H_dowhile : forall b c, Pe b -> Pe c -> Pe (EDoWhile b c).
 Hypothesis H_for : forall i c n b, Pe i -> Pe c -> Pe n -> Pe b -> Pe (EFor i c n b).
+Hypothesis H_forinrange : forall v a b body, Pe a -> Pe b -> Pe body -> Pe (EForInRange v a b body).
+Hypothesis H_forinarr : forall v a body, Pe a -> Pe body -> Pe (EForInArr v a body).
 Hypothesis H_lambda : forall fd, Pf fd -> Pe (ELambda fd).
 Hypothesis H_arrlit : forall es t, Forall Pe es -> Pe (EArrLit es t).
 Hypothesis H_index : forall a i, Pe a -> Pe i -> Pe (EIndex a i).
@@ -66,6 +68,8 @@ Fixpoint expr_mut (t : expr) : Pe t :=
   | EWhile c b => H_while c b (expr_mut c) (expr_mut b)
   | EDoWhile b c => H_dowhile b c (expr_mut b) (expr_mut c)
   | EFor i c n b => H_for i c n b (expr_mut i) (expr_mut c) (expr_mut n) (expr_mut b)
+  | EForInRange v a b body => H_forinrange v a b body (expr_mut a) (expr_mut b) (expr_mut body)
+  | EForInArr v a body => H_forinarr v a body (expr_mut a) (expr_mut body)
   | ELambda fd => H_lambda fd (fdef_mut fd)
   | EArrLit l t => H_arrlit l t (es l)
   | EIndex a i => H_index a i (expr_mut a) (expr_mut i)
@@ -154,6 +158,9 @@ Fixpoint sub_expr (on : bool) (t : expr) {struct t} : expr :=
   | EWhile c b => EWhile (sub_expr on c) (sub_expr on b)
   | EDoWhile b c => EDoWhile (sub_expr on b) (sub_expr on c)
   | EFor i c n b => EFor (sub_expr on i) (sub_expr on c) (sub_expr on n) (sub_expr on b)
+  | EForInRange v a b body =>
+      EForInRange v (sub_expr on a) (sub_expr on b) (sub_expr (on && negb (N.eqb v x)) body)
+  | EForInArr v a body => EForInArr v (sub_expr on a) (sub_expr (on && negb (N.eqb v x)) body)
   | ELambda fd => ELambda (sub_fdef on fd)
   | EArrLit es t => EArrLit (map (sub_expr on) es) t
   | EIndex a i => EIndex (sub_expr on a) (sub_expr on i)
@@ -258,6 +265,8 @@ Fixpoint nin_expr (t : expr) : Prop :=
   | ECall f args => nin_expr f /\ all_list nin_expr args
   | EBlock items => all_list nin_item items
   | EFor i c n b => nin_expr i /\ nin_expr c /\ nin_expr n /\ nin_expr b
+  | EForInRange v a b body => v <> y /\ nin_expr a /\ nin_expr b /\ nin_expr body
+  | EForInArr v a body => v <> y /\ nin_expr a /\ nin_expr body
   | ELambda fd => nin_fdef fd
   | EArrLit es _ => all_list nin_expr es
   | ERecNew _ args => all_list nin_expr args
@@ -537,6 +546,45 @@ Proof.
   destruct (nth_error l fld); auto using res_rel_same.
 Qed.
 
+(* for-in loops *)
+Inductive lstep_rel : lstep -> lstep -> Prop :=
+| lr_done : lstep_rel LsDone LsDone
+| lr_fault : forall r, lstep_rel (LsFault r) (LsFault r)
+| lr_bind : forall c s1 s2 src, st_rel s1 s2 -> lstep_rel (LsBind c s1 src) (LsBind c s2 src).
+
+Lemma forin_step_rel : forall s1 s2 src, st_rel s1 s2 ->
+  lstep_rel (forin_step s1 src) (forin_step s2 src).
+Proof.
+  intros s1 s2 src H. destruct src as [z zb|z zb|ca i]; cbn [forin_step].
+  - destruct (z <=? zb)%Z; [|constructor].
+    destruct (alloc_rel s1 s2 (CInt z) (CInt z) H (cr_int z)) as [E R].
+    destruct (alloc s1 (CInt z)), (alloc s2 (CInt z)). simpl in E, R. subst. constructor; auto.
+  - destruct (zb <=? z)%Z; [|constructor].
+    destruct (alloc_rel s1 s2 (CInt z) (CInt z) H (cr_int z)) as [E R].
+    destruct (alloc s1 (CInt z)), (alloc s2 (CInt z)). simpl in E, R. subst. constructor; auto.
+  - pose proof H as (_ & <- & _ & _).
+    destruct (get_cell_rel _ _ ca H) as [[-> ->]|[v1 [v2 [-> [-> R]]]]]; [constructor|].
+    inversion R; subst; try constructor.
+    destruct a; [|constructor].
+    destruct (nth_error (arrs s1) n); [|constructor].
+    destruct (nth_error l i); constructor; auto.
+Qed.
+
+Lemma forin_loop_rel : forall (ev1 ev2 : nat -> state -> res * state),
+  (forall c s1 s2, st_rel s1 s2 -> res_rel (ev1 c s1) (ev2 c s2)) ->
+  forall n src s1 s2, st_rel s1 s2 ->
+  res_rel (forin_loop ev1 n src s1) (forin_loop ev2 n src s2).
+Proof.
+  intros ev1 ev2 Hev. induction n as [|n IH]; intros src s1 s2 H.
+  - rewrite !forin_loop_O. apply res_rel_same; auto.
+  - rewrite !forin_loop_S.
+    destruct (forin_step_rel _ _ src H) as [|r|c t1 t2 src' Ht].
+    + apply fresh_rel; auto. constructor.
+    + apply res_rel_same; auto.
+    + specialize (Hev c _ _ Ht). destruct (ev1 c t1) as [r1 u1], (ev2 c t2) as [r2 u2].
+      destruct Hev as [Hr Hs]. cbn [fst snd] in Hr, Hs. subst r2.
+      destruct r1; try (apply res_rel_same; auto). apply IH; auto.
+Qed.
 
 Lemma run_state_rel : forall s on' fds E1 E2 s1 s2,
   (s = true -> all_list nin_fdef fds) ->
@@ -685,6 +733,12 @@ Proof.
           by (cbn; rewrite andb_true_r; reflexivity).
         rewrite Ef. apply IHe with (s := s); auto.
         intro h; cbn; auto.
+      * (* EForInRange *)
+        apply forin_loop_rel; auto. intros cv s1 s2 Hs12.
+        apply IHe with (s := s); auto. apply cfg_bind; auto.
+      * (* EForInArr *)
+        apply forin_loop_rel; auto. intros cv s1 s2 Hs12.
+        apply IHe with (s := s); auto. apply cfg_bind; auto.
       * (* ELambda *) apply fresh_rel; auto. eapply cr_fun; eauto.
       * (* EArrLit *)
         destruct (Hargs _ _ _ _ es _ _ C ltac:(assumption) Hs) as [Ea Ra].
